@@ -616,6 +616,10 @@ def _normalize_media(media: Type[ComponentMediaInput]) -> None:
         else:
             raise ValueError(f"Media.css must be str, list, or dict, got {type(media.css)}")
 
+    # Allow: class Media: css = []
+    elif hasattr(media, "css") and isinstance(media.css, (list, tuple)):
+        media.css = {}
+
     if hasattr(media, "js") and media.js:
         # Allow: class Media: js = "script.js"
         if _is_media_filepath(media.js):
